@@ -46,6 +46,8 @@ func H_C17() {
 			// the open/close-tag handling of formatter and printer is one known defect:
 			// its consequences are keyed by the family, not by the slot that differs
 			Fail("C17:same-structure-and-values", htmlFamily)
+		} else if hasDanglingAltIf(ref.Root) {
+			Fail("C17:same-structure-and-values", danglingAltIfFamily)
 		} else {
 			Fail("C17:same-structure-and-values", shortDiff(diff))
 		}
@@ -65,10 +67,17 @@ func H_C17() {
 	} else {
 		Assert("C17:idempotent|"+firstNodeKinds(ref.Root), BytesEq(out1, out2))
 	}
-	// canonical: the same text as for the unmodified snippet (trivia-independent)
+	// canonical: the same text as for the unmodified snippet (trivia-independent). Presupposes
+	// that the trivia left the program alone - where it did not (C08's subject, e.g. a comment
+	// in the halt-compiler head) there is nothing to compare
 	if len(base) > 0 {
 		c := ParseWith(base, major, minor, true)
 		if len(c.Errs) == 0 && !IsNilVertex(c.Root) {
+			if _, d := TreeEq(ref.Root, c.Root, 0); d != "" {
+				Cover("discarded:trivia-changes-the-program (C08)")
+				Cover("formatted")
+				return
+			}
 			out3 := formatAndPrint(c.Root)
 			where := "trivia between " + tokName(ParamInt("prev")) + " and " + tokName(ParamInt("next"))
 			if len(out3) != len(out1) {
@@ -119,6 +128,53 @@ func shortDiff(d string) string {
 }
 
 const htmlFamily = "program with inline HTML or a close tag"
+
+const danglingAltIfFamily = "alternative-syntax if as the unbraced branch of an if that has elseif/else"
+
+// hasDanglingAltIf: an if with elseif/else whose unbraced then-branch ends in an
+// alternative-syntax if ("if (a) if (b): endif; else ..."): the inner if is closed by its endif,
+// so the else belongs to the outer one; written with braces-less ordinary syntax it would not.
+func hasDanglingAltIf(root ast.Vertex) bool {
+	found := false
+	Walk(root, nil, func(n, _ ast.Vertex) {
+		if x, ok := n.(*ast.StmtIf); ok && (len(x.ElseIf) > 0 || x.Else != nil) && endsInAltIf(x.Stmt) {
+			found = true
+		}
+		if x, ok := n.(*ast.StmtElseIf); ok && endsInAltIf(x.Stmt) {
+			found = true
+		}
+	})
+	return found
+}
+
+func endsInAltIf(s ast.Vertex) bool {
+	switch x := s.(type) {
+	case *ast.StmtIf:
+		if x.ColonTkn != nil {
+			return true
+		}
+		if x.Else != nil {
+			if e, ok := x.Else.(*ast.StmtElse); ok {
+				return endsInAltIf(e.Stmt)
+			}
+			return false
+		}
+		if len(x.ElseIf) > 0 {
+			if e, ok := x.ElseIf[len(x.ElseIf)-1].(*ast.StmtElseIf); ok {
+				return endsInAltIf(e.Stmt)
+			}
+			return false
+		}
+		return endsInAltIf(x.Stmt)
+	case *ast.StmtWhile:
+		return x.ColonTkn == nil && endsInAltIf(x.Stmt)
+	case *ast.StmtFor:
+		return x.ColonTkn == nil && endsInAltIf(x.Stmt)
+	case *ast.StmtForeach:
+		return x.ColonTkn == nil && endsInAltIf(x.Stmt)
+	}
+	return false
+}
 
 // c17Family: coarse class of the program for "does not parse" signatures: the three
 // constructs the formatter is known to mishandle, else the first statement's kinds.
